@@ -302,10 +302,15 @@ def main(argv=None):
         if hpid != pid or a.only:
             continue
         try:
-            caught = bool(fn())
+            res = fn()
         except Exception:
             crashes.append((f'harness-canary:{hname}', traceback.format_exc()))
             continue
+        if res is None:
+            # the text / object the canary edits is not in the current tree: it says nothing either way
+            hc_results.append({'canary': hname, 'result': 'not-applicable (what it edits is not present in the current tree)'})
+            continue
+        caught = bool(res)
         hc_results.append({'canary': hname, 'result': 'caught' if caught else 'SURVIVED'})
         if not caught:
             unsound.append((f'bounded harness of {pid}', [hname, 'injected wrong behaviour was not reported']))
